@@ -90,6 +90,11 @@ inductive Dim where
   | ragged (ns : List Nat)
 deriving Repr, DecidableEq
 
+/-- `len(np.unique(lengths)) == 1`: there is a length and every cube has it -/
+def allSame : List Nat → Bool
+  | [] => false
+  | x :: xs => xs.all (· == x)
+
 def Seq.shape (s : Seq) : List Dim :=
   let first := s.shapes.headD []
   let dims := (Dim.int s.shapes.length) :: first.map Dim.int
@@ -97,7 +102,7 @@ def Seq.shape (s : Seq) : List Dim :=
   | none => dims
   | some a =>
     let lens := s.shapes.map fun sh => sh.getD a 0
-    if lens.eraseDups.length ≠ 1 then dims.set (a + 1) (.ragged lens) else dims
+    if !allSame lens then dims.set (a + 1) (.ragged lens) else dims
 
 def Seq.cubeLikeShape (s : Seq) : Except Err (List Nat) :=
   match s.commonAxis with
